@@ -263,7 +263,9 @@ impl CompiledItem {
                             .replace('"', "\\\"")
                             .replace('\n', "\\n")
                             .replace('\r', "\\r")
-                            .replace('\t', "\\t");
+                            .replace('\t', "\\t")
+                            // NUL ends an instruction in the binary form
+                            .replace('\0', "\\0");
                         let arg = fix_arg_if_needed(&replaced)?;
                         args.push_str(arg.as_ref());
                     }
